@@ -639,6 +639,34 @@ func init() {
 			if i%2 == 1 {
 				edit = nameEdits(g, prog, r)
 			}
+			if i%20 == 7 || i%20 == 12 {
+				// a call with two or three arguments too many, each of them a variable - declared here and used nowhere
+				// else, or never declared: surplus arguments are expressions of the script like any other
+				name := []string{"set_tx_meta", "set_account_meta", "balance", "nope"}[(i/20)%4]
+				call := &GFnCall{Name: name}
+				switch name {
+				case "set_tx_meta":
+					call.Args = []*GExpr{{Kind: XString, S: "k"}, {Kind: XNumber, N: bi(1)}}
+				case "set_account_meta":
+					call.Args = []*GExpr{acct("a"), {Kind: XString, S: "k"}, {Kind: XNumber, N: bi(1)}}
+				case "balance":
+					call.Args = []*GExpr{acct("a"), {Kind: XAsset, S: "USD"}}
+				}
+				for k := 0; k < 2+i%2; k++ {
+					v := fmt.Sprintf("extra_%d", k)
+					if (i/40+k)%2 == 0 {
+						prog.Vars = append(prog.Vars, &GVarDecl{Type: typeNames[(i+k)%len(typeNames)], Name: v})
+					}
+					call.Args = append(call.Args, &GExpr{Kind: XVar, S: v})
+				}
+				if name == "balance" {
+					prog.Vars = append(prog.Vars, &GVarDecl{Type: "monetary", Name: "surplus_origin", Origin: call})
+					prog.Stmts = append(prog.Stmts, &GStmt{Kind: StCall, Call: &GFnCall{Name: "set_tx_meta", Args: []*GExpr{{Kind: XString, S: "s"}, {Kind: XVar, S: "surplus_origin"}}}})
+				} else {
+					prog.Stmts = append(prog.Stmts, &GStmt{Kind: StCall, Call: call})
+				}
+				edit += "+surplus-arguments"
+			}
 			pp := &Printer{}
 			pp.program(prog)
 			text, pos := Render(pp.Toks, 0, r)
